@@ -70,7 +70,18 @@ def pin_configs(country: str, tier: str):
         s = c.span("account_code")
         if s[1] - s[0] >= 2 and all(k == "n" for k in bases.classes_of(c)[s[1] - 2:s[1]]):
             base = {comp: pin_value(country, comp, "distinct") for comp in main}
-            for i in range(12 if tier == "quick" else 100):
+            from ..ref import nat as _nat
+            body0 = bases.bban(c, "distinct")
+            wanted = list(range(12 if tier == "quick" else 100))
+            # ... and, among the hundred, account numbers for which the published rule has NO valid
+            # check digit (the draw can only give up)
+            impossible = []
+            for i in range(100):
+                acct = base["account_code"][:-2] + f"{i:02d}"
+                b = body0[:s[0]] + acct + body0[s[1]:]
+                if country in _nat.COUNTRIES and _nat.with_check(country, b) is None and _nat.check_span(country):
+                    impossible.append(i)
+            for i in dict.fromkeys(wanted + impossible[:3]):
                 out.append(dict(base, account_code=base["account_code"][:-2] + f"{i:02d}", _default_run_only=True))
     if tier == "thorough":
         for r in range(2, len(comps)):
